@@ -75,6 +75,8 @@ def run(ctx):
     r01_8(ctx)
     r01_9(ctx)
     r01_10(ctx)
+    r01_11(ctx)
+    r01_12(ctx)
 
 
 # ---------------------------------------------------------------------------
@@ -555,3 +557,78 @@ def r01_10(ctx):
     ctx.verdict(not bad, "R01.10", None, "no-cached-value", "%s:%d" % (a["span"]["file"], a["span"]["line"]),
                 "Subscriber fields: %s - no T outside the lock handle" % ", ".join("%s: %s" % (fd["name"], fd["ty"]) for fd in fields),
                 "Subscriber caches a `T` (%s): values handed out may be stale" % bad)
+
+
+def r01_11(ctx):
+    """derived-field coherence: a field of the state that caches something about the value is refreshed by every function that can change the value."""
+    F = ctx.facts
+    a = F.adt(EY, "state::ObservableState")
+    if not a:
+        return
+    extra = [fd["name"] for fd in a["variants"][0]["fields"] if fd["name"] not in ("value", "metadata")]
+    if not extra:
+        ctx.holds("R01.11", None, "no-derived-state", "%s:%d" % (a["span"]["file"], a["span"]["line"]), "ObservableState has no field besides `value` and `metadata`: nothing can go stale")
+        return
+    borrowers = value_borrowers(F)
+    for X in extra:
+        def touches(f):
+            """blocks of f that write X (assignment, or a call receiving &mut X)"""
+            b = f.built
+            out = []
+            derived = False
+            for loc, s_ in b.iter_stmts():
+                if s_["k"] == "assign" and last_field(s_["place"]) == X:
+                    out.append(loc[0])
+                    if mentions_field(b.expr_of_rv(s_["rv"], 8, ()), "value"):
+                        derived = True
+            for blk, t in b.calls():
+                if t["args"] and t["args"][0]["k"] in ("move", "copy") and b.locals[t["args"][0]["place"]["l"]]["ty"].startswith("&mut"):
+                    e0 = strip(b.expr_of_op(t["args"][0]), through_calls=False)
+                    if e0[0] == "field" and e0[2] == X:
+                        out.append(blk)
+                        if any(mentions_field(b.expr_of_op(x), "value") for x in t["args"][1:]):
+                            derived = True
+                        for gd in t.get("garg_defs") or []:
+                            c = F.fns.get(f.crate + "::" + gd) if gd else None
+                            if c is not None and c.built and any(mentions_field(c.built.expr_of_local(0), "value") for _ in [0]):
+                                derived = True
+            return out, derived
+        info = {f.key: touches(f) for f in state_fns(F) if f.built}
+        if not any(d for _, d in info.values()):
+            ctx.undecided("R01.11", None, "field=%s" % X, None, "extra state field `%s` is not recognisably derived from the value" % X)
+            continue
+        refreshers = {k for k, (blks, d) in info.items() if blks and F.fns[k].built.post_dominated_by(0, blks)}
+        for f, sites in borrowers:
+            b = f.built
+            own, _ = info.get(f.key, ([], False))
+            viacall = [blk for blk, t in b.calls() if F.local_callee(f, t) is not None and F.local_callee(f, t).key in refreshers]
+            ok = all(b.post_dominated_by(loc[0], own + viacall) for loc in sites)
+            ctx.verdict(ok, "R01.11", f, "refreshes:%s" % X, f.loc(), "`%s` refreshes the value-derived field `%s` on every path after touching the value" % (f.name, X),
+                        "the state caches something about the value in `%s`, but `%s` hands out `&mut value` and can return without refreshing it: later decisions (e.g. set_if_hash_not_eq) are taken against a stale cache" % (X, f.name))
+
+
+def r01_12(ctx):
+    """next / next_ref hand out the value through the marking path, never through the non-marking readers get/read."""
+    F = ctx.facts
+    n = 0
+    for f in F.find(crate=EY):
+        st = f.raw.get("self_ty") or ""
+        if not st.startswith("subscriber::Subscriber<") or f.name not in ("next", "next_ref") or f.raw.get("impl_trait"):
+            continue
+        n += 1
+        bad = None
+        for lb in logical_bodies(F, f):
+            b = lb.built
+            if not b:
+                continue
+            for blk, t in b.calls():
+                c = F.local_callee(lb, t)
+                if c is not None and (c.raw.get("self_ty") or "").startswith("subscriber::Subscriber<") and c.name in ("get", "read") and not c.raw.get("impl_trait"):
+                    bad = (lb, blk, c)
+        if bad:
+            lb, blk, c = bad
+            ctx.violated("R01.12", f, "hands-out-through-marking-path", lb.built.line_at((blk, 10 ** 6)),
+                         "`%s` hands out the value through `%s`, which takes a fresh lock and does not mark the value as observed: a write that lands between the poll and this read is handed out now and reported again by the next poll" % (f.path, c.name))
+        else:
+            ctx.holds("R01.12", f, "hands-out-through-marking-path", f.loc(), "no call of the non-marking readers get/read")
+    ctx.floor("R01.12", n, 2 if ctx.config == "default" else 4)
